@@ -428,6 +428,7 @@ def _process(cls: t.Type[PaneBase], opts: PaneOptions):
     fields: t.List[Field] = []
 
     specs: t.Dict[str, FieldSpec] = {}
+    declared_in: t.Dict[str, type] = {}  # class each spec was (last) declared in
 
     # collect FieldSpecs from base classes
     for base in reversed(cls.__mro__[1:]):
@@ -436,9 +437,14 @@ def _process(cls: t.Type[PaneBase], opts: PaneOptions):
         cls_specs = getattr(base, PANE_INFO).specs
 
         # apply typevar replacements
+        # (to the fields `base` declares or inherits: not to those of unrelated bases which follow it in the MRO)
         bound_vars = t.cast(t.Mapping[t.Union[t.TypeVar, ParamSpec], type], base.__dict__.get(PANE_BOUNDVARS, {}))
         specs.update(cls_specs)
-        specs = {k: spec.replace_typevars(bound_vars) for (k, spec) in specs.items()}
+        declared_in.update(dict.fromkeys(cls_specs, base))
+        specs = {
+            k: spec.replace_typevars(bound_vars) if issubclass(base, declared_in[k]) else spec
+            for (k, spec) in specs.items()
+        }
 
     annotations = get_type_hints(cls)
     kw_only = opts.kw_only  # current kw_only state
